@@ -2,6 +2,7 @@
 import re
 
 from . import common as C
+from . import typedattr as TA
 from . import fmtgen as G
 
 NAMES = ["ignore", "forward", "owned", "ref", "ref_mut", "source", "backtrace"]
@@ -198,7 +199,7 @@ def run(tier):
     extra, cov, corr_bad = [], {}, []
     try:
         inproc = C.cargo_build_inproc()
-        lean_ok, _ = C.lake_build(["Dm.Props.C17", "dmdriver"])
+        lean_ok, _ = C.lake_build(["Dm.Props.C17", "Dm.Props.C17Typed", "dmdriver"])
         # A. legacy parser: model vs get_meta_info (hook) on generated attribute lists
         n = 6000 if tier == "quick" else 120000
         cases = [gen_attrs(rng, "deref") for _ in range(n)]
@@ -238,20 +239,53 @@ def run(tier):
                 res.violation(f"corruption-{verdict}:{d}:{src[:100]}",
                               f"#[derive({d})] {src}: the {k0} argument is {'silently accepted' if verdict == 'accepted' else 'answered by a panic instead of a diagnostic'}",
                               {"cmd": f"expand {d}", "source": src, "corruption": kind, "answer": ans[:800]})
-        extra = [("correspondence: legacy attribute parser model == get_meta_info (hook)", lean_ok and not corr_bad)]
+        # D. typed attribute parsers (From, AsRef, TryFrom, Into): token-level argument lists -> model `ta` -> parsed
+        #    attribute -> C08 / C14 models -> predicted expansion, against the working tree; then the synonymous
+        #    rewrites the theorems license (order, trailing commas, one attribute or several, skip/ignore) on the
+        #    real expansions
+        nt = 400 if tier == "quick" else 8000
+        tcases, tbad, tdist = TA.correspondence(inproc, C.drive_lean, rng, nt) if lean_ok else ([], [], {})
+        seen_panics = set()
+        for b in sorted(tbad, key=lambda b: len(b["source"])):
+            if b["impl"] == "panic":
+                site = b["raw"].split(" ")[1] if len(b["raw"].split(" ")) > 1 else "?"
+                if site in seen_panics:
+                    continue
+                seen_panics.add(site)
+            if b["impl"].startswith("ok") and b["model"].startswith("err"):
+                res.violation(f"typed-accepted:{b['source'][:120]}", f"#[derive({TA.DERIVE[b['grammar']]})] {b['source']}: the malformed / duplicated / contradicting attribute is accepted",
+                              {"cmd": f"expand {TA.DERIVE[b['grammar']]}", "source": b["source"], "model": b["model"], "impl": b["impl"][:600]})
+            elif b["impl"] == "panic":
+                res.violation(f"typed-panic:{b['source'][:120]}", f"#[derive({TA.DERIVE[b['grammar']]})] {b['source']}: answered by a panic instead of a diagnostic ({b['raw'][:160]})",
+                              {"cmd": f"expand {TA.DERIVE[b['grammar']]}", "source": b["source"], "answer": b["raw"]})
+        ta_ans = C.drive_lean([req for _, _, req, _ in tcases]) if lean_ok and tcases else []
+        tsyn = TA.synonym_cases(rng, tcases, ta_ans)
+        out = C.drive(inproc, [f"expand {TA.DERIVE[g]} {C.hexs(x)}" for g, _, a, b in tsyn for x in (a, b)])
+        syn_kinds = {}
+        for k, (g, kind, a, b) in enumerate(tsyn):
+            ra, rb = out[2 * k], out[2 * k + 1]
+            syn_kinds[kind] = syn_kinds.get(kind, 0) + 1
+            if ra.startswith("ok") and impls(ra) != impls(rb):
+                res.violation(f"typed-synonym:{kind}:{a[:80]}|{b[:80]}", f"#[derive({TA.DERIVE[g]})]: `{a}` and its {kind} rewrite `{b}` do not expand to the same impls ({rb[:120]})",
+                              {"cmd": f"expand {TA.DERIVE[g]}", "a": a, "b": b, "rewrite": kind, "expansion_a": ra[:2000], "expansion_b": rb[:2000]})
+        corr_typed = [b for b in tbad]
+        extra = [("correspondence: legacy attribute parser model == get_meta_info (hook)", lean_ok and not corr_bad),
+                 ("correspondence: typed attribute parser model (ta) + C08/C14 models == working-tree verdict, diagnostic kind and expansion", lean_ok and not corr_typed)]
+        corr_bad = corr_bad + corr_typed
         cov = {
-            "evaluations": n + 2 * n_syn + len(CORRUPTIONS),
+            "evaluations": n + 2 * n_syn + len(CORRUPTIONS) + len(tcases) + 2 * len(tsyn),
             "distinct_nontrivial": len({c[1] + "|" + ",".join(c[0]) for c in cases}) + n_syn + len(CORRUPTIONS),
             "rule": "distinct (allow-list, attribute list) inputs of the legacy parser + synonym pairs + corrupted items expanded by the working-tree code",
-            "traces_validated_against_impl": n,
+            "traces_validated_against_impl": n + len(tcases),
             "model_vs_impl_disagreements": len(corr_bad),
-            "distribution": {"legacy_parser_cases": n, "legacy_outcomes": kinds, "synonym_pairs": n_syn, "corruptions": len(CORRUPTIONS), "corruption_outcomes": ckinds},
+            "distribution": {"legacy_parser_cases": n, "legacy_outcomes": kinds, "synonym_pairs": n_syn, "corruptions": len(CORRUPTIONS), "corruption_outcomes": ckinds,
+                             "typed_attribute_cases": len(tcases), "typed_outcomes": tdist, "typed_synonym_rewrites": syn_kinds},
             "samples": [{"allowed": c[0], "attrs": c[1]} for c in cases[:3]],
         }
     except C.BuildError as e:
         res.violation("build", e.what, {"output": e.output[-3000:]}, found_input=False)
         cov = {"build_error": e.what}
-    failed = C.proof_obligations(res, "C17", ["C17"], extra)
+    failed = C.proof_obligations(res, "C17", ["C17", "C17Typed"], extra)
     if failed and not res.violations:
         res.violation("obligations:" + ";".join(failed)[:200], "proof obligation / correspondence no longer checks: " + "; ".join(failed)[:400],
                       {"failed_obligations": failed, "correspondence_disagreements": corr_bad[:8]}, found_input=False)
@@ -261,7 +295,9 @@ def run(tier):
     res.coverage["impl_vs_oracle_failures"] = len(res.violations)
     res.coverage["trusted_base"] += [
         "model of get_meta_info / parse_punctuated_nested_meta written by hand and compared with the real functions through the guarded hook; the `types(..)` arm is unreachable (no allow-list contains `types`) and not modelled",
-        "the typed attributes (Skip, Types, Conversion, Forward, fmt container attributes, ReprInt, rename_all) are not modelled in Lean: their synonym / rejection behaviour is decided on the hand-written tables of spellings and single-step corruptions run against the working-tree expansions",
+        "model of the typed attribute parsers of utils.rs `mod attr` (Empty, Forward, Skip, Types, Either, Conversion, FieldConversion, ReprConversion, parse_attrs_with / merge_attrs), of into.rs (ConversionsAttribute, FieldAttribute, StructAttribute, check_legacy_syntax) and of from.rs's ConsiderLegacySyntax, written by hand over classified argument items (identifier / path type / other type / literal / nested list) and compared with the working tree on generated argument lists: verdict, legacy-or-other diagnostic, and expansion (through the C08 / C14 models)",
+        "the classification of an argument by `syn` (what parses as a type / path / meta) is an assumption of that model, validated by the same comparison",
+        "fmt container attributes (bound, rename_all), ReprInt and Error's attributes are not modelled in Lean: their synonym / rejection behaviour is decided on the hand-written tables of spellings and single-step corruptions run against the working-tree expansions",
         "syn's parsing of attribute token trees (commas, parentheses) is trusted",
     ]
     return res.finish()
